@@ -152,7 +152,7 @@ def lean_audit(module):
     thms = {}
     for line in out.splitlines():
         m = re.match(r"THM (\S+) AXIOMS \[(.*)\]", line)
-        if m:
+        if m and not re.search(r"\.(eq_def|eq_\d+|congr_simp|induct|induct_unfolding|fun_cases|sizeOf_spec|injEq|inj)$", m.group(1)):
             axs = [a.strip() for a in m.group(2).split(",") if a.strip()]
             thms[m.group(1)] = axs
     json.dump({"key": key, "theorems": thms}, open(cpath, "w"))
